@@ -9,15 +9,5 @@ CONSTANTS
  DevNoFudge = FALSE
  DevOtherTemplate = TRUE
  DevCentreOther = FALSE
-INVARIANT Centred
 INVARIANT TurnedScaled
-INVARIANT Scaled
-INVARIANT SameHanded
-INVARIANT Congruent
-INVARIANT VSKept
-INVARIANT Untouched
-INVARIANT Protocol
-INVARIANT RotationLawsOnce
-INVARIANT TemplatesOKOnce
-PROPERTY OwnOnly
 CHECK_DEADLOCK FALSE
